@@ -205,6 +205,18 @@ fn run_prop(prop: &str, tier: Tier, seed: u64) -> i32 {
             props::crash::c09(&ctx);
             ctx.finish(tier.pick(100, 2000))
         }
+        "C10" => {
+            let ctx = Ctx::new(
+                "C10",
+                tier,
+                seed,
+                "fault_enumeration",
+                "generated FsyncSchedule::SyncEach workloads (3-14 operations: appends, batches, read_next, consuming batch reads; payloads <= 64 KiB; StrictlyAtOnce and AtLeastOnce; fd and mmap) are executed once under an H1 trace that records every foreground I/O event with its bytes (file create / set_len / fsync, directory fsync, block writes, io_uring writes, flushes, cursor-file tmp write / fsync / rename). For loss points after event k (quick: 10 per workload, thorough: all) the directory is rebuilt from the trace prefix: writes flushed by a later flush/fsync of their file, tmp-file content fsynced, and directory entries covered by a later directory fsync are durable; every other write, set_len, file creation and rename is kept or lost independently (none, all, all subsets when there are few unsynced items, otherwise 6 sampled subsets). A fresh process opens each rebuilt directory and drains every topic. Oracle: every append acknowledged before the loss point is delivered in order (entries of the operation in flight may follow), nothing foreign; in StrictlyAtOnce mode entries whose consuming read had returned are not delivered again. Each evaluation = one (workload, loss point, subset); non-trivial = at least one unsynced item was dropped.",
+                &["power-loss model of the property: only explicitly synced data and directory entries are durable, unsynced items are independent", "clean-marker files are outside this property and are not rebuilt"],
+            );
+            props::power::c10(&ctx);
+            ctx.finish(tier.pick(100, 2000))
+        }
         "C11" => {
             let ctx = Ctx::new(
                 "C11",
